@@ -171,6 +171,49 @@ def program(r, quick):
     return viol, nops, kinds, script
 
 
+def read_purity_sweep(r, quick):
+    """reads never change anything already handed out: for each class and several k/mass grids (incl. grids entirely
+    above HALOFIT's low-k cut) read every quantity in several orders, keeping every returned array, parameter dict and
+    class-level default; after each read all of them must be bit-identical"""
+    realfuzz.init()
+    viol, nreads = [], 0
+    grids = [{}, {"lnk_min": -5.0, "lnk_max": 6.0}, {"lnk_min": -4.0, "lnk_max": 3.0, "dlnk": 0.1}, {"lnk_min": -16.0, "lnk_max": 10.0}]
+    with warnings.catch_warnings():
+        warnings.simplefilter("ignore")
+        np.seterr(all="ignore")
+        for cn in ["Transfer", "MassFunction", "TransferWDM", "MassFunctionWDM"]:
+            cls = realfuzz.class_by_name(cn)
+            qs = realfuzz.quantities(cls)
+            for g in (grids if not quick else grids[:3]):
+                for order in ("sorted", "reversed", "random"):
+                    seq = sorted(qs) if order == "sorted" else (sorted(qs, reverse=True) if order == "reversed" else r.sample(qs, len(qs)))
+                    kw = dict(copy.deepcopy(realfuzz.BASE[cn]), **g)
+                    try:
+                        o = cls(**kw)
+                    except Exception:
+                        continue
+                    cls0 = class_level_snapshot()
+                    held = []
+                    for q in seq:
+                        try:
+                            v = getattr(o, q)
+                        except Exception:
+                            continue
+                        nreads += 1
+                        for q0, arr, b in held:
+                            if arr.tobytes() != b:
+                                viol.append({"key": f"read-mutates-returned-array/{q0}", "what": f"{cn}({g}): reading {q} modified the array previously returned as {q0}",
+                                             "replay": {"kind": "c11-program", "script": [f"o = {cn}(**{kw})"] + [f"o.{x}" for x in seq[:seq.index(q) + 1]]}})
+                                return viol, nreads
+                        if isinstance(v, np.ndarray):
+                            held.append((q, v, v.tobytes()))
+                    if class_level_snapshot() != cls0:
+                        viol.append({"key": "read-mutates-class-level", "what": f"{cn}: reading quantities changed class-level defaults",
+                                     "replay": {"kind": "c11-program", "script": [f"o = {cn}(**{kw})"] + [f"o.{x}" for x in seq]}})
+                        return viol, nreads
+    return viol, nreads
+
+
 def run(ctx):
     quick = ctx["tier"] == "quick"
     out = {"violations": [], "broken": [], "coverage": {}, "assumptions": [
@@ -182,6 +225,8 @@ def run(ctx):
         out["violations"].append({"key": "heap/identity-partition", "what": "aliasing or content of dict parameters / caller dicts differs from the separation-respecting model",
                                   "replay": {"kind": "heap", **bad[0]}})
     r = rng("c11")
+    pv, npure = read_purity_sweep(r, quick)
+    out["violations"] += pv
     nprog = 25 if quick else 400
     tot, kinds = 0, {}
     samples = []
@@ -199,7 +244,7 @@ def run(ctx):
         "evaluations": tot + st["ops"], "programs": st["programs"] + nprog, "disagreements_checked": st["programs"],
         "traces_validated_against_impl": st["programs"], "distinct_nontrivial": nprog + st["programs"],
         "rule": "heapcorr: random programs over 2-3 MassFunctionWDM instances (construction from shared caller dicts, update/assign, deepcopy/clone/pickle, caller-side mutation, component instantiation), identity partition + contents compared with the Lean heap model. snapshot oracle: random programs over all five classes with bystander snapshots after every operation",
-        "heap": st, "snapshot_ops": tot, "snapshot_op_kinds": kinds, "samples": [st["sample"]] + samples,
+        "heap": st, "read_purity_reads": npure, "snapshot_ops": tot, "snapshot_op_kinds": kinds, "samples": [st["sample"]] + samples,
         "search": "bystander-snapshot oracle on random multi-instance programs",
     }
     return out
